@@ -158,7 +158,7 @@ Definition rat (pl : placement) (pts : list pt) : list pt :=
 (* ---------- the convex_hull wrapper of utils.cpp ---------- *)
 Definition cross (o a b : pt) : Q :=
   qsub (qmul (qsub (fst a) (fst o)) (qsub (snd b) (snd o))) (qmul (qsub (snd a) (snd o)) (qsub (fst b) (fst o))).
-(* sign of [cross o a b], computed on normalised differences (cheaper; same value: cross_sign_eq) *)
+(* sign of [cross o a b], computed on normalised differences (cheaper; cross_sign = Eq implies cross == 0: cross_sign_Eq) *)
 Definition cross_sign (o a b : pt) : comparison :=
   qcmp (qmul (qn (qsub (fst a) (fst o))) (qn (qsub (snd b) (snd o))))
        (qmul (qn (qsub (snd a) (snd o))) (qn (qsub (fst b) (fst o)))).
